@@ -47,7 +47,7 @@ ADDED = {
  "C10": " Starting states also arrive as int64/float32 arrays; System objects are built and System.describe_system must write, per starting state, exactly the simulations judged before (results table on disk). Caller threads: two threads simulate at the same time under the line-event scheduler; rows, J, T and differentials must be what each simulation gives alone.",
  "C11": " Histories also contain read-only API calls (log_parameters_to, str, bounds); inside surrogate runs every evaluation is observed together with the objective's mode (an evaluation booked by the real process must be a real-system evaluation, and the recorded data must be what those evaluations record on a fresh objective). The private collection lists are used only while calibrated against get_differentials(). Faults also include an allocation failing inside get_differentials. Caller threads: two threads, each with an objective object of its own, evaluate at the same time under the line-event scheduler; each value and each recorded data set must be what that thread gets alone.",
  "C12": " Instance pools are stratified by structure class; controller-synthesis results are re-evaluated from run_ode rows alone; parsed bin bounds must be true bounds; digests of the bundled instances' data as loaded on the pinned tree are on record (c12_golden.json).",
- "C17": " Templates in which every item needs its own bin are admitted or refused by the code's own get_x_dim; objective objects with another configuration are used in turns; decodes that fail half-way (short vector, NaN) happen between valid ones; the number of slack pairs varies per decode; the seed derivation of the hardness objective fails once.",
+ "C17": " Templates in which every item needs its own bin are admitted or refused by the code's own get_x_dim; objective objects with another configuration are used in turns; decodes that fail half-way (short vector, NaN) happen between valid ones; the number of slack pairs varies per decode; the seed derivation of the hardness objective fails once. Caller threads: two threads decode at the same time with one shared decoder (or one each) under the line-event scheduler.",
 }
 checks = []
 for pid in sorted(CLAIMED):
